@@ -24,6 +24,7 @@ type Clause struct {
 }
 
 type LoopSpec struct {
+	Exits       []*Clause // asserted (then assumed) at every block entered on leaving the loop
 	Invariants  []*Clause
 	Modifies    []*Clause
 	HasModifies bool
@@ -333,6 +334,10 @@ func (sp *Specs) ParseFile(path string, defaultPkg string) {
 			case "invariant":
 				if c := mkClause(body, rc.line); c != nil {
 					ls.Invariants = append(ls.Invariants, c)
+				}
+			case "exit":
+				if c := mkClause(body, rc.line); c != nil {
+					ls.Exits = append(ls.Exits, c)
 				}
 			case "modifies":
 				ls.HasModifies = true
